@@ -13,6 +13,7 @@ import os
 import sys
 
 os.environ['VERIF_NO_CROSSHAIR'] = '1'
+_ROOT = os.path.dirname(os.path.dirname(os.path.abspath(__file__)))
 
 
 def run(modname, fname, kwargs, trace=False):
@@ -25,14 +26,14 @@ def run(modname, fname, kwargs, trace=False):
     if event == 'call':
       co = frame.f_code
       f = co.co_filename
-      if '/gin/' in f and not f.startswith('/verif'):
+      if '/gin/' in f and not f.startswith(_ROOT):
         seen.add('gin.%s:%s' % (os.path.basename(f)[:-3], co.co_name))
     return None
 
   if os.environ.get('VERIF_EXPLAIN'):
     # development aid: report the harness line that returned False
     def tracer(frame, event, arg, _t=tracer):
-      if frame.f_code.co_filename.startswith('/verif/vf/harness'):
+      if frame.f_code.co_filename.startswith(os.path.join(_ROOT, 'vf', 'harness')):
         def local(fr, ev, a):
           if ev == 'return' and a is False:
             sys.stderr.write('RETURN False at %s:%d\n' % (fr.f_code.co_filename, fr.f_lineno))
@@ -55,7 +56,7 @@ def run(modname, fname, kwargs, trace=False):
     ok = False
     err = ''.join(traceback.format_exception(type(e), e, e.__traceback__)[-8:])
     tb = traceback.extract_tb(e.__traceback__)
-    if isinstance(e, (ImportError, NotImplementedError)) and tb and tb[-1].filename.startswith('/verif'):
+    if isinstance(e, (ImportError, NotImplementedError)) and tb and tb[-1].filename.startswith(_ROOT):
       ok = None          # the harness itself is broken: infrastructure error, never a violation
   finally:
     sys.settrace(None)
